@@ -306,6 +306,87 @@ func runC12(c *core.Ctx) {
 	}
 	c.Floor("ignore.symmetry", 10)
 
+	// ---- slots: a range must be closable wherever the parser can put the closing comment of a block
+	infixFilled := false
+	for _, fn := range prog.ModuleFuncs("parser") {
+		for _, b := range fn.Blocks {
+			for _, in := range b.Instrs {
+				call, ok := in.(*ssa.Call)
+				if !ok {
+					continue
+				}
+				if cal := call.Common().StaticCallee(); cal == nil || cal.Name() != "SwapLeadingInfix" {
+					continue
+				}
+				for x := range core.BackSlice(call.Common().Args[1]) {
+					if f := core.FieldOf(x); f != nil && f.Name() == "Meta" && core.FieldOwner(x) == core.ModPath+"/ast.BlockStatement" {
+						infixFilled = true
+					}
+				}
+			}
+		}
+	}
+	if infixFilled {
+		if has("TeardownBlockStatement", "unignore", "ignoreRange", "falcoIgnoreEnd", "Infix") {
+			c.Discharge("ignore.slots", "BlockStatement|Infix|falcoIgnoreEnd", ign.Pos(), "falco-ignore-end written before the closing brace (Meta.Infix of the block) closes the range")
+		} else {
+			c.ReportAt("ignore.slots", "BlockStatement|Infix|falcoIgnoreEnd", "linter/ignore.go", 0, "the parser attaches a comment written before a block's closing brace to the block's Meta.Infix, but TeardownBlockStatement never looks for falco-ignore-end there: a range closed at the end of a block stays open and hides every later diagnostic of the file")
+		}
+	} else {
+		c.MissingAnchor("ignore.slots", "parser call SwapLeadingInfix(_, <BlockStatement>.Meta)")
+	}
+	for _, l := range []string{"Leading", "Trailing"} {
+		if has("SetupBlockStatement", "unignore", "ignoreRange", "falcoIgnoreEnd", l) || has("TeardownBlockStatement", "unignore", "ignoreRange", "falcoIgnoreEnd", l) {
+			c.Discharge("ignore.slots", "BlockStatement|"+l+"|falcoIgnoreEnd", ign.Pos(), "falco-ignore-end is honoured in Meta."+l+" of a block")
+		} else {
+			c.ReportAt("ignore.slots", "BlockStatement|"+l+"|falcoIgnoreEnd", "linter/ignore.go", 0, "falco-ignore-end in Meta."+l+" of a block does not close the range")
+		}
+	}
+
+	// ---- markers: the directive parser strips every comment marker the lexer produces (#, //, /* ... */)
+	if pic := prog.SSAFunc("linter", "parseIgnoreComment"); pic != nil {
+		lead, tail := "", false
+		for _, b := range pic.Blocks {
+			for _, in := range b.Instrs {
+				call, ok := in.(*ssa.Call)
+				if !ok {
+					continue
+				}
+				cal := call.Common().StaticCallee()
+				if cal == nil || cal.Pkg == nil || cal.Pkg.Pkg.Path() != "strings" || len(call.Common().Args) < 2 {
+					continue
+				}
+				k, ok := call.Common().Args[1].(*ssa.Const)
+				if !ok || k.Value == nil || k.Value.Kind() != constant.String {
+					continue
+				}
+				cs := constant.StringVal(k.Value)
+				switch cal.Name() {
+				case "TrimLeft":
+					lead += cs
+				case "TrimSuffix":
+					if cs == "*/" {
+						tail = true
+					}
+				case "TrimRight", "Trim":
+					if strings.Contains(cs, "*") && strings.Contains(cs, "/") {
+						tail = true
+					}
+					if cal.Name() == "Trim" {
+						lead += cs
+					}
+				}
+			}
+		}
+		if strings.Contains(lead, "#") && strings.Contains(lead, "/") && strings.Contains(lead, "*") && tail {
+			c.Discharge("ignore.markers", "parseIgnoreComment", pic.Pos(), "leading #, //, /* and the closing */ are stripped")
+		} else {
+			c.Report("ignore.markers", "parseIgnoreComment", pic.Pos(), fmt.Sprintf("parseIgnoreComment does not strip every comment marker (leading cutset %q, closing */ stripped: %v): a directive written as /* ... */ gets `*/` as a rule name and ignores nothing", lead, tail))
+		}
+	} else {
+		c.MissingAnchor("ignore.markers", "linter.parseIgnoreComment")
+	}
+
 	// ---- filter
 	sets := map[string][2]int{} // field -> {all reads, rules lookups by param}
 	var ruleParam *ssa.Parameter
